@@ -1,17 +1,31 @@
 #!/bin/bash
 # mutant_run.sh <id> <check> [<check>...]: apply /verif/seeded/<id>/patch.diff to /repo, run the quick checks,
-# restore /repo.  Prints one line per check: caught / missed.
+# restore /repo.  Prints one line per check (CAUGHT / missed) and records them in seeded/<id>/result.json.
 id=$1; shift
 cd /repo && git diff --quiet || { echo "/repo is dirty"; exit 2; }
 git -C /repo apply /verif/seeded/$id/patch.diff || { echo "patch does not apply"; exit 3; }
 cd /verif
+res="/verif/seeded/$id/result.json"
+echo "{" > $res.tmp
+first=1
 for p in "$@"; do
   out=$(./check $p --tier quick 2>&1 | grep -v conda)
-  if echo "$out" | grep -q "^VIOLATION"; then
-     echo "$id $p CAUGHT: $(echo "$out" | grep '^VIOLATION' | head -2 | tr '\n' ' ')"
+  v=$(echo "$out" | grep '^VIOLATION' | head -1)
+  if [ -n "$v" ]; then
+     echo "$id $p CAUGHT: $v"
+     rp=$(echo "$v" | sed 's/.*replay=\([^ ]*\).*/\1/')
+     stage=$(python3 -c "import json,sys;d=json.load(open('$rp'));print(d.get('stage','?'))" 2>/dev/null)
+     kind="concrete-replay"; echo "$v" | grep -q "no-failing-input-found" && kind="no-failing-input-found"
+     ent="\"$p\": {\"caught\": true, \"stage\": \"$stage\", \"kind\": \"$kind\"}"
   else
      echo "$id $p missed: $(echo "$out" | tail -1)"
+     ent="\"$p\": {\"caught\": false}"
   fi
+  [ $first = 1 ] || echo "," >> $res.tmp
+  first=0
+  echo " $ent" >> $res.tmp
 done
+echo "}" >> $res.tmp
+mv $res.tmp $res
 git -C /repo checkout -- .
 cd /verif && ./build.sh >/dev/null 2>&1
